@@ -19,7 +19,7 @@ const PROP: &str = "C19";
 
 const SHAPES: [&str; 10] = ["flag-short", "flag-long", "flag-both", "count-short", "opt-short", "opt-both", "opt-optional", "pos-required", "pos-optional", "pos-multi"];
 const MODS: [&str; 13] = ["none", "hide", "heading", "heading-upper", "env", "default", "possible-values", "possible-values-help", "long-help", "hide-short-help", "value-names", "hide+heading", "hide+heading+possible-values-help"];
-const ROOTS: [&str; 8] = ["none", "version", "long-version", "author", "after-help", "long-about", "before-help", "sub-heading"];
+const ROOTS: [&str; 11] = ["none", "version", "long-version", "author", "after-help", "long-about", "before-help", "sub-heading", "empty-about", "empty-long-about", "only-a-user-defined-help-subcommand"];
 
 fn mk_arg(n: usize, shape: &str, m: &str) -> ArgSpec {
     let id = format!("arg{}", n);
@@ -97,6 +97,23 @@ fn mk_cmd(args: Vec<ArgSpec>, root: &str) -> CmdSpec {
         "long-about" => c.long_about = Some("LONGABOUTMARK".into()),
         "before-help" => c.before_help = Some("BEFOREMARK".into()),
         "sub-heading" => c.subcommand_help_heading = Some("Subhead".into()),
+        "empty-about" => c.about = Some(String::new()),
+        "empty-long-about" => {
+            c.about = None;
+            c.long_about = Some(String::new());
+        }
+        "only-a-user-defined-help-subcommand" => {
+            // the generated help subcommand is off; the only visible subcommand is the user's `help`
+            c.set(Setting::DisableHelpSubcommand);
+            let mut h = CmdSpec::new("help");
+            h.about = Some("ABOUTUSERHELP".into());
+            let mut hid = CmdSpec::new("hidcmd");
+            hid.hide = true;
+            hid.about = Some("ABOUTHIDDEN".into());
+            c.subs.push(h);
+            c.subs.push(hid);
+            return c;
+        }
         _ => {}
     }
     let mut vis = CmdSpec::new("viscmd");
@@ -169,8 +186,12 @@ fn check_coverage(spec: &CmdSpec) -> Vec<(String, String)> {
             bad.push(("a non-hidden argument has no entry (help text) in the man page".into(), arg.id.clone()));
         }
     }
-    if !p.contains("viscmd") {
-        bad.push(("a non-hidden subcommand is not named in the man page".into(), "viscmd".into()));
+    for sc in spec.subs.iter().filter(|s| !s.hide) {
+        // by its name in the SUBCOMMANDS section (`prog-<name>(1)`), or at least by its about text
+        let named = p.contains(&format!("prog-{}", sc.name)) || p.contains(&format!("prog\\-{}", sc.name)) || sc.about.as_ref().map(|a| p.contains(a.as_str())).unwrap_or(false);
+        if !named {
+            bad.push(("a non-hidden subcommand is not named in the man page".into(), sc.name.clone()));
+        }
     }
     for marker in ["hidcmd", "ABOUTHIDDEN", "HIDDENPV", "PVHELPhidden"] {
         if p.contains(marker) {
